@@ -37,7 +37,7 @@ PROPS = {
     "solution.py": ["C16", "C11", "C17"],
     "excel_io.py": ["C16"],
     "plotter.py": ["C17"],
-    "base.py": ["C18", "C14", "C01"],
+    "base.py": ["C18", "C14", "C01", "C08"],
 }
 SKIP_FUNCS = {"plot_function", "render_gantt_plotly", "get_parameters_description", "print_assertions", "print_statistics", "print_solution", "__repr__", "__str__", "ser_model", "calc_parabola_from_three_points", "to_json", "to_json_file", "add_from_json", "add_from_json_file"}
 SINKS = {"append_z3_assertion", "set_z3_assertions", "append_z3_list_of_assertions", "append", "extend", "add_busy_interval", "push", "pop", "minimize", "maximize"}
